@@ -9,6 +9,7 @@ import sys
 
 import layout
 import pylib
+import sexp_reader
 from pylib import Domain
 from pddl_plus_parser.exporters import DomainExporter
 
@@ -97,7 +98,34 @@ def run_case(case, layout_seed=None, snaps=True):
                 ev.append({"c": "Snap", "snap": snap})
     if case.get("rename"):
         rename_part(case, text, tree, objects, states, ev)
+    for d in case.get("prints", []):
+        ev.append(print_event(dom, d))
     return hist
+
+
+def print_event(dom, digits):
+    """C12: print every numeric condition / unconditional numeric effect of each action with `digits` decimals,
+    let the library re-read its own text, and hand the text to the specification"""
+    import os
+    from pddl_plus_parser.lisp_parsers import PDDLTokenizer
+    from pddl_plus_parser.models import NumericalExpressionTree, construct_expression_tree
+    act = dom.actions["act"]
+    actual = int(os.environ.get("NUMERIC_PRECISION", 4)) if digits == "default" else digits
+    try:
+        pre = [c for _, c in act.preconditions if isinstance(c, NumericalExpressionTree)]
+        texts_pre = [c.to_pddl() if digits == "default" else c.to_pddl(decimal_digits=digits) for c in pre]
+        texts_eff = [c.to_pddl() if digits == "default" else c.to_pddl(decimal_digits=digits) for c in act.numeric_effects]
+        ok = True
+        for t in texts_pre + texts_eff:
+            try:
+                construct_expression_tree(PDDLTokenizer(pddl_str=t).parse(), dom.functions)
+            except Exception:  # noqa: BLE001
+                ok = False
+        return {"c": "PrintExpr", "d": "d", "act": "act", "digits": actual,
+                "out": {"pre": [sexp_reader.read(t) for t in texts_pre], "eff": [sexp_reader.read(t) for t in texts_eff],
+                        "reparse_ok": ok, "texts": texts_pre + texts_eff}}
+    except Exception as e:  # noqa: BLE001
+        return {"c": "PrintExpr", "d": "d", "act": "act", "digits": actual, "out": {"exc": pylib.exc_name(e)}}
 
 
 def rename_part(case, text, tree, objects, states, ev):
